@@ -193,6 +193,7 @@ func encoderLayout(fn *ssa.Function) (writes []encWrite, buf *ssa.Call, total in
 
 func c01Layout(c *Ctx, dec, enc *ssa.Function) {
 	ba := newBA(c, dec)
+	c01FrameLength(c, ba, dec)
 	dl := decoderLayout(ba, dec)
 	writes, buf, total := encoderLayout(enc)
 	ek := funcKey(enc)
@@ -936,4 +937,44 @@ func partSources(v ssa.Value, out map[string]bool, seen map[ssa.Value]bool, dept
 			}
 		}
 	}
+}
+
+// c01FrameLength (R1): the retained copy of a decoded frame has exactly the length the frame announces.
+// The decoder keeps a private copy of `frameLen` bytes and the fast path forwards that copy verbatim. frameLen must be
+// the mathematical sum  fixed header + class length + header-block length + content length  of the length fields read
+// from the wire: as a linear form it is a constant plus wire atoms with coefficient 1 and nothing else. Arithmetic
+// carried out in a narrow type (uint16(class)+uint16(header)) wraps above 65535 and is not that sum: the copy is cut
+// short while its length fields still claim the full sizes.
+func c01FrameLength(c *Ctx, ba *BA, dec *ssa.Function) {
+	n := 0
+	forEachInstr(dec, false, func(_ *ssa.Function, in ssa.Instruction) {
+		call, ok := in.(*ssa.Call)
+		if !ok || methodName(call.Common()) != "GetIoBuffer" || len(call.Common().Args) != 1 {
+			return
+		}
+		// only the copy that is retained as frame data
+		retained := false
+		for _, r := range refs(call) {
+			if st, isS := r.(*ssa.Store); isS {
+				if _, f, _, okf := fieldAddrInfo(st.Addr); okf && (f == "Data" || f == "rawData") {
+					retained = true
+				}
+			}
+		}
+		if !retained {
+			return
+		}
+		n++
+		key := fmt.Sprintf("%s:frame-length-is-sum-of-announced-lengths#%d", funcKey(dec), n)
+		l := ba.lin(call.Common().Args[0])
+		okSum, wires := l.C > 0, 0
+		for a, k := range l.T {
+			if strings.HasPrefix(a, "wire(") && k == 1 {
+				wires++
+				continue
+			}
+			okSum = false
+		}
+		c.Check("C01.R1", key, call.Pos(), okSum && wires >= 2, fmt.Sprintf("retained copy length = %s", l.String()), "the length of the retained frame copy is not the plain sum of the fixed header and the length fields read from the wire ("+l.String()+"): with arithmetic in a narrow type the sum wraps (class + header above 65535), the copy is cut short and the forwarded frame is not the received one")
+	})
 }
